@@ -153,7 +153,7 @@ Qed.
 Lemma ins_li_In x l y : In y (ins_li x l) <-> y = x \/ In y l.
 Proof.
   induction l as [|z r IH]; cbn [ins_li In]; [intuition|].
-  destruct (li_alen z <? li_alen x); cbn [In]; [intuition|]. rewrite IH. intuition.
+  destruct (li_alen z <=? li_alen x); cbn [In]; [intuition|]. rewrite IH. intuition.
 Qed.
 
 Lemma sort_lis_In l y : In y (sort_lis l) <-> In y l.
